@@ -8,6 +8,8 @@ import (
 	"bytes"
 	"encoding/json"
 	"os"
+
+	"github.com/cnotch/ipchub/internal/verifhook"
 )
 
 // EncodeJSONFile 编码 JSON 文件
@@ -18,6 +20,7 @@ func EncodeJSONFile(path string, obj interface{}) error {
 	}
 
 	defer f.Close()
+	verifhook.Crash("encodejson.opened")
 
 	var formatted bytes.Buffer
 	body, err := json.Marshal(obj)
@@ -32,9 +35,11 @@ func EncodeJSONFile(path string, obj interface{}) error {
 	if _, err := f.Write(formatted.Bytes()); err != nil {
 		return err
 	}
+	verifhook.Crash("encodejson.written")
 	if err := f.Sync(); err != nil {
 		return err
 	}
+	verifhook.Crash("encodejson.synced")
 
 	return nil
 }
